@@ -90,6 +90,17 @@ pub fn record<T: Serialize + ?Sized>(v: &T) -> (Result<(), E>, Rec) {
     (r, rec)
 }
 
+/// minimal capture of a value that serialises as ONE string (no object bookkeeping, no loops
+/// beyond copying the string): used with the real formatter in `hex6_real_format`
+pub fn capture_str<T: Serialize + ?Sized>(v: &T) -> Option<([u8; 48], usize)> {
+    let mut buf = [0u8; KEYCAP];
+    let mut len = 0usize;
+    match v.serialize(KeySer { out: &mut buf, len: &mut len }) {
+        Ok(()) => Some((buf, len)),
+        Err(_) => None,
+    }
+}
+
 #[derive(Clone, Copy, PartialEq)]
 enum Role {
     Plain,
